@@ -76,7 +76,7 @@ theorem C13_disconnected_once (s s' : CS) (h : step s (.status .disconnected) = 
     s.faults > 0 ∧ s.st = .connected ∧ step s' (.status .disconnected) = none := by
   obtain ⟨t, ht, rfl⟩ := L13.step_eq_some.1 h
   simp only [stepCore, L13.guard_eq_some, Bool.and_eq_true, decide_eq_true_eq] at ht
-  obtain ⟨⟨⟨h1, h2⟩, h3⟩, rfl⟩ := ht
+  obtain ⟨⟨⟨h1, h2⟩, h3, -⟩, rfl⟩ := ht
   refine ⟨h3, ?_, ?_⟩
   · cases hs : s.st <;> simp_all
   · simp [L13.step_eq_none, stepCore, L13.guard_eq_none]
